@@ -54,8 +54,11 @@ class _InMemoryConsumer(ConsumerT):
     async def finish(self) -> None:
         await asyncio.sleep(0)
         self._started = False
-        while self._queue.processing:
-            self._queue.simple.put_nowait(self._queue.processing.pop())
+        # other consumers of the queue keep the messages they hold
+        for msg in [m for m in self._queue.processing if self._queue.holders.get(m) is self]:
+            self._queue.processing.remove(msg)
+            self._queue.holders.pop(msg, None)
+            self._queue.simple.put_nowait(msg)
         await asyncio.sleep(0)
 
     def __update_delayed(self) -> None:
@@ -121,6 +124,7 @@ class _InMemoryConsumer(ConsumerT):
                 self.__update_delayed()
 
         self._queue.processing.add(msg)
+        self._queue.holders[msg] = self
 
         await asyncio.sleep(0)
         return (msg.key, msg.payload, msg.parameters)
